@@ -1,0 +1,7 @@
+//go:build !verif
+
+package lower
+
+import "github.com/gogpu/naga/ir"
+
+func verifStage(string, *ir.Module) {}
